@@ -684,7 +684,7 @@ def _r13_4(prog: Program, res: Result) -> None:
 from ..selftest import Variant  # noqa: E402
 
 VARIANTS: List[Variant] = [
-    Variant("at-sign-search-without-comments", "FIRE", "core", "        at_sign = re.search(r\"@(?:[\\s\\\\(]|#[^\\n]*)*\\Z\", source[:start_charno])\n", "        at_sign = re.search(r\"@[\\s\\\\(]*\\Z\", source[:start_charno])\n", "R13.8"),
+    Variant("at-sign-search-without-comments", "FIRE", "core", "        at_sign = re.search(r\"@(?:[\\s\\\\(]|#[^\\n]*\\n)*\\Z\", source[:start_charno])\n", "        at_sign = re.search(r\"@[\\s\\\\(]*\\Z\", source[:start_charno])\n", "R13.8"),
     Variant("match-anchored-by-raw-position-of-first-statement", "FIRE", "pattern_matching", '        if m.span.start == module_body_range.start:\n            return m\n',
             "        if (m.lineno, m.col_offset) == (root.body[0].lineno, root.body[0].col_offset):\n            return m\n", "R13.1"),
     Variant("match-anchored-by-raw-line-of-first-statement", "FIRE", "pattern_matching", '        if m.span.start == module_body_range.start:\n            return m\n',
@@ -693,10 +693,10 @@ VARIANTS: List[Variant] = [
             "        if m.span.start == core.get_charnos(root.body[0], source).start:\n            return m\n"),
     Variant("finder-reads-files-by-locale", "FIRE", "pattern_matching", "            with tokenize.open(filename) as stream:\n                source = stream.read()\n                encoding = stream.encoding\n", "            source = filename.read_text()\n            encoding = None\n", "R13.9"),
     Variant("finder-read-outside-a-handler", "FIRE", "pattern_matching", "        except (OSError, SyntaxError, UnicodeDecodeError) as error:", "        except OSError as error:", "R13.9"),
-    Variant("peek-in-front-of-offset-zero", "FIRE", "core", "        at_sign = re.search(r\"@(?:[\\s\\\\(]|#[^\\n]*)*\\Z\", source[:start_charno])\n        if at_sign:\n            start_charno = at_sign.start()\n", "        if source[start_charno - 1] == \"@\":\n            start_charno -= 1\n", "R13.6"),
-    Variant("at-sign-directly-in-front-only", "FIRE", "core", "        at_sign = re.search(r\"@(?:[\\s\\\\(]|#[^\\n]*)*\\Z\", source[:start_charno])\n", "        at_sign = re.search(r\"@\\Z\", source[:start_charno])\n", "R13.8"),
+    Variant("peek-in-front-of-offset-zero", "FIRE", "core", "        at_sign = re.search(r\"@(?:[\\s\\\\(]|#[^\\n]*\\n)*\\Z\", source[:start_charno])\n        if at_sign:\n            start_charno = at_sign.start()\n", "        if source[start_charno - 1] == \"@\":\n            start_charno -= 1\n", "R13.6"),
+    Variant("at-sign-directly-in-front-only", "FIRE", "core", "        at_sign = re.search(r\"@(?:[\\s\\\\(]|#[^\\n]*\\n)*\\Z\", source[:start_charno])\n", "        at_sign = re.search(r\"@\\Z\", source[:start_charno])\n", "R13.8"),
     Variant("string-pieces-trimmed-again", "FIRE", "core", "    if code and code[0] == \" \" and not isinstance(node, ast.Constant):", "    if code and code[0] == \" \":", "R13.7"),
-    Variant("at-sign-pattern-with-character-class-spelled-out", "SILENT", "core", "        at_sign = re.search(r\"@(?:[\\s\\\\(]|#[^\\n]*)*\\Z\", source[:start_charno])\n", "        at_sign = re.search(r\"@(?:[ \\t\\r\\n\\f\\v\\\\(]|#[^\\n]*)*\\Z\", source[:start_charno])\n"),
+    Variant("at-sign-pattern-with-character-class-spelled-out", "SILENT", "core", "        at_sign = re.search(r\"@(?:[\\s\\\\(]|#[^\\n]*\\n)*\\Z\", source[:start_charno])\n", "        at_sign = re.search(r\"@(?:[ \\t\\r\\n\\f\\v\\\\(]|#[^\\n]*\\n)*\\Z\", source[:start_charno])\n"),
     Variant("line-list-indexed-by-line-number-unbounded", "FIRE", "fixes",
             "            1 < safe_position_lineno < len(source_lines)  # The line below the last one is not indented\n", "            1 < safe_position_lineno\n", "R13.5"),
     Variant("line-list-indexed-by-line-number-minus-one", "SILENT", "fixes",
